@@ -1,5 +1,7 @@
 //! dmverif: trace generators / replayers for the TLA+ based verification of datamatrix-rs.
+mod catalogue;
 mod gen_enc;
+mod gen_rs;
 mod strings;
 mod util;
 
@@ -39,6 +41,15 @@ fn main() {
             }
             out.flush();
             eprintln!("enc: {} cases", cases.len());
+        }
+        ("gen", "rs") => {
+            let cases = gen_rs::cases(&tier, seed, &focus);
+            let mut out = Out::create(&out_path, start > 0);
+            for (i, c) in cases.iter().enumerate().skip(start) {
+                out.put(&gen_rs::run_case(i + 1, c, profile));
+            }
+            out.flush();
+            eprintln!("rs: {} cases", cases.len());
         }
         _ => {
             eprintln!("unknown command");
